@@ -325,6 +325,20 @@ def optimal_task(task):
                 rec['cases'].append({'ex': [q for q in range(n) if (ex >> q) & 1], 'ez': [q for q in range(n) if (ez >> q) & 1],
                                      'syn_zpart': sz_, 'syn_xpart': sx_, 'decoder_built': built,
                                      'cx': [int(i) for i in np.nonzero(cc_[:n])[0]], 'cz': [int(i) for i in np.nonzero(cc_[n:])[0]]})
+        # one-sector decoders: error_type='X' corrects X errors from the Z-type checks only, 'Z' the other way round
+        for et in ('X', 'Z'):
+            dec_et = MatchingDecoder(code, em, p, error_type=et)
+            for (ex, ez) in pairs[:(6 if tier == 'quick' else 40)]:
+                e = np.zeros(2 * n, dtype='uint8')
+                for q in range(n):
+                    e[q] = (ex >> q) & 1
+                    e[n + q] = (ez >> q) & 1
+                syn = code.measure_syndrome(e)
+                cc_ = np.asarray(dec_et.decode(syn)) % 2
+                rec['cases'].append({'ex': [q for q in range(n) if (ex >> q) & 1], 'ez': [q for q in range(n) if (ez >> q) & 1],
+                                     'syn_zpart': [int(b) for b in np.asarray(code.extract_z_syndrome(syn))],
+                                     'syn_xpart': [int(b) for b in np.asarray(code.extract_x_syndrome(syn))], 'decoder_built': 1, 'error_type': et,
+                                     'cx': [int(i) for i in np.nonzero(cc_[:n])[0]], 'cz': [int(i) for i in np.nonzero(cc_[n:])[0]]})
     except Exception as ex:
         import traceback
         rec['error'] = '%s: %s' % (type(ex).__name__, ex)
